@@ -52,6 +52,10 @@ func VH_heapq_Positions() {
 	}
 	q.Set(vs)
 	vCover("set")
+	// Set copies its argument: the caller may reuse the slice
+	for i, j := 0, len(vs)-1; i < j; i, j = i+1, j-1 {
+		vs[i], vs[j] = vs[j], vs[i]
+	}
 	t.check(q, "after Set")
 	for step := 0; step < vCase("steps"); step++ {
 		switch vChoice("op", 6) {
